@@ -194,6 +194,9 @@ where
             l.as_ref(),
             OpinionRef::from((&rr.simplex, &l.base_rate)),
         ),
+        // one and the same object on both sides (second operand of the case ignored)
+        ("self", true) => Fuse::<_, _, Idx>::fuse(&op, &l, &l),
+        ("self_ref", true) => Fuse::<_, _, Idx>::fuse(&op, l.as_ref(), l.as_ref()),
         ("assign", false) => {
             let mut acc = l.clone();
             FuseAssign::<_, &Opinion<T, V>, Idx>::fuse_assign(&op, &mut acc, &rr);
@@ -245,6 +248,7 @@ where
     let l: Simplex<T, V> = r.simplex();
     let s: Simplex<T, V> = r.simplex();
     let w: Simplex<T, V> = match style {
+        "self" => Fuse::<_, _, Idx>::fuse(&op, &l, &l),
         "own" => Fuse::<_, _, Idx>::fuse(&op, &l, &s),
         "assign" => {
             let mut acc = l.clone();
@@ -470,8 +474,18 @@ where
         };
         Out::Ok(flat_opinion(&res))
     } else {
+        // the opinion forms carry a base rate on Y that abduction must ignore
+        let dummy: &'a U = Box::leak(Box::new(U::tab(|i| *wy.belief.at(i))));
         let res: Option<Opinion<T, V>> = match style {
             "spx" => Abduction::<&'a C, X, Y, T, U>::abduce(wy, conds, ax),
+            "ref" => Abduction::<&'a C, X, Y, T, U>::abduce(OpinionRef::from((wy, dummy)), conds, ax),
+            "own" => {
+                let w: &'a Opinion<U, V> = Box::leak(Box::new(Opinion::from((
+                    Simplex::new_unchecked(U::tab(|i| *wy.belief.at(i)), wy.uncertainty),
+                    U::tab(|i| *wy.belief.at(i)),
+                ))));
+                Abduction::<&'a C, X, Y, T, U>::abduce(w, conds, ax)
+            }
             _ => return Out::Bad(format!("abduce: style {style}")),
         };
         match res {
